@@ -5,7 +5,7 @@
    the ordered RFC 6902 reference (Rfc6902.v). *)
 From Coq Require Import Lia.
 From JP Require Import Bytes Json Text Strings Den Pointer Rfc6902 ImplV5 DecodeFacts JsonFacts Abs EqualFacts
-                       ImplFacts RefFacts ApplyFacts ApplySim Domain.
+                       ImplFacts RefFacts ApplyFacts Depth ApplySim Domain.
 
 (* ================================================================================================ *)
 (* C13 — AllowMissingPathOnRemove                                                                    *)
@@ -197,8 +197,17 @@ Definition allow_opts (o : opts) : Prop := o_allow o = true /\ o_ensure o = fals
 Lemma allow_opts_off o : allow_opts o -> plain_opts (set_allow o false).
 Proof. intros [_ [E L]]. split; [reflexivity|]. split; [exact E | exact L]. Qed.
 
+(* a skipped remove is no copy *)
+Lemma absent_remove_fits d doc op : absent_remove d doc op = true -> copy_fits d doc (den_op op) = true.
+Proof.
+  unfold absent_remove. intro H. apply copy_fits_not_copy. unfold den_op. cbn [rkind].
+  destruct (op_kind op); try discriminate H. discriminate.
+Qed.
+
+(* copy_fits: as in step_sim (the depth check of deepCopy does not consult the option) *)
 Theorem step_allow_sim o st op :
   sgood st -> allow_opts o -> op_dom op ->
+  copy_fits (dia o) (sval st) (den_op op) = true ->
   if absent_remove (dia o) (sval st) op
   then exists st', step o st op = Ok st' /\ sval st' = sval st /\ sgood st' /\ s_acc st' = s_acc st
   else match rfc_step (dia o) (sval st) (den_op op) with
@@ -206,10 +215,10 @@ Theorem step_allow_sim o st op :
        | RFail cz => exists e, step o st op = Err e /\ cause_rel cz e
        end.
 Proof.
-  intros G AO Dop.
+  intros G AO Dop Fit.
   assert (Dec : op_kind op = KRemove \/ op_kind op <> KRemove) by (destruct (op_kind op); auto; right; discriminate).
   destruct Dec as [Ek|NR].
-  2: { pose proof (step_sim (set_allow o false) st op G (allow_opts_off o AO) Dop) as S.
+  2: { pose proof (step_sim (set_allow o false) st op G (allow_opts_off o AO) Dop Fit) as S.
        rewrite (step_allow_off_dom o st op Dop NR) in S. change (dia (set_allow o false)) with (dia o) in S.
        unfold absent_remove. destruct (op_kind op); try congruence; exact S. }
   (* remove *)
@@ -270,9 +279,13 @@ Proof.
   - intros op' Hin. apply NR. now right.
 Qed.
 
-(* the run with the option on, against the reference run of the stripped patch *)
+(* the run with the option on, against the reference run of the stripped patch.
+   The depth condition copies_fit is stated on THAT run (the reference run of the stripped patch):
+   a skipped remove leaves the document value unchanged, so the run with the option on meets every
+   copy at the same document value as the reference run of the stripped patch does *)
 Theorem allow_strip_ref o : allow_opts o -> forall p i i' st,
   sgood st -> Forall op_dom p ->
+  copies_fit (dia o) (sval st) (map den_op (strip (dia o) (sval st) p)) = true ->
   match rfc_apply_from (dia o) i' (sval st) (map den_op (strip (dia o) (sval st) p)) with
   | Done doc => exists st', apply_from o i st p = AOk st' /\ sval st' = doc /\ sgood st'
   | Failed k cz => exists k1 e, apply_from o i st p = AErr k1 e /\ cause_rel cz e /\
@@ -280,19 +293,23 @@ Theorem allow_strip_ref o : allow_opts o -> forall p i i' st,
                      nth_error p (k1 - i) = nth_error (strip (dia o) (sval st) p) (k - i')
   end.
 Proof.
-  intros AO. induction p as [|op p IH]; intros i i' st G D; cbn [strip].
+  intros AO. induction p as [|op p IH]; intros i i' st G D F; cbn [strip] in *.
   - cbn [map rfc_apply_from apply_from]. exists st. auto.
   - inversion D as [|? ? Dop Dp]; subst.
-    pose proof (step_allow_sim o st op G AO Dop) as S. cbn [apply_from].
+    assert (F1 : copy_fits (dia o) (sval st) (den_op op) = true).
+    { destruct (absent_remove (dia o) (sval st) op) eqn:A; [apply absent_remove_fits; exact A|].
+      cbn [map copies_fit] in F. apply andb_prop in F. exact (proj1 F). }
+    pose proof (step_allow_sim o st op G AO Dop F1) as S. cbn [apply_from].
     destruct (absent_remove (dia o) (sval st) op).
     + destruct S as [st' [S1 [S2 [S3 _]]]]. rewrite S1.
-      specialize (IH (S i) i' st' S3 Dp). rewrite S2 in IH.
+      specialize (IH (S i) i' st' S3 Dp). rewrite S2 in IH. specialize (IH F).
       destruct (rfc_apply_from (dia o) i' (sval st) (map den_op (strip (dia o) (sval st) p))) as [doc|k cz]; [exact IH|].
       destruct IH as [k1 [e [I1 [I2 [I3 [I4 I5]]]]]]. exists k1, e. split; auto. split; auto. split; [lia|]. split; auto.
       replace (k1 - i)%nat with (S (k1 - S i))%nat by lia. exact I5.
-    + cbn [map rfc_apply_from]. destruct (rfc_step (dia o) (sval st) (den_op op)) as [j'|cz].
+    + cbn [map rfc_apply_from copies_fit] in *. apply andb_prop in F as [_ F2].
+      destruct (rfc_step (dia o) (sval st) (den_op op)) as [j'|cz].
       * destruct S as [st' [S1 [S2 S3]]]. rewrite S1.
-        specialize (IH (S i) (S i') st' S3 Dp). rewrite S2 in IH.
+        specialize (IH (S i) (S i') st' S3 Dp). rewrite S2 in IH. specialize (IH F2).
         destruct (rfc_apply_from (dia o) (S i') j' (map den_op (strip (dia o) j' p))) as [doc|k cz]; [exact IH|].
         destruct IH as [k1 [e [I1 [I2 [I3 [I4 I5]]]]]]. exists k1, e. split; auto. split; auto. split; [lia|]. split; [lia|].
         replace (k1 - i)%nat with (S (k1 - S i))%nat by lia. replace (k - i')%nat with (S (k - S i'))%nat by lia. exact I5.
@@ -306,6 +323,7 @@ Qed.
 Theorem allow_equals_stripped o p i st :
   allow_opts o -> sgood st -> Forall op_dom p ->
   let p' := strip (dia o) (sval st) p in
+  copies_fit (dia o) (sval st) (map den_op p') = true ->
   match apply_from (set_allow o false) i st p' with
   | AOk st2 => exists st1, apply_from o i st p = AOk st1 /\ sval st1 = sval st2 /\ sgood st1 /\ sgood st2
   | AErr k e2 => exists k1 e1 cz, apply_from o i st p = AErr k1 e1 /\ cause_rel cz e1 /\ cause_rel cz e2 /\
@@ -313,9 +331,9 @@ Theorem allow_equals_stripped o p i st :
   | APanic _ => False
   end.
 Proof.
-  intros AO G D p'.
-  pose proof (allow_strip_ref o AO p i i st G D) as A. fold p' in A.
-  pose proof (apply_sim (set_allow o false) (allow_opts_off o AO) p' i st G (strip_dom _ _ _ D)) as B.
+  intros AO G D p' F.
+  pose proof (allow_strip_ref o AO p i i st G D F) as A. fold p' in A.
+  pose proof (apply_sim (set_allow o false) (allow_opts_off o AO) p' i st G (strip_dom _ _ _ D) F) as B.
   change (dia (set_allow o false)) with (dia o) in B.
   destruct (rfc_apply_from (dia o) i (sval st) (map den_op p')) as [doc|k cz].
   - destruct B as [st2 [B1 [B2 B3]]]. rewrite B1. destruct A as [st1 [A1 [A2 A3]]].
@@ -327,10 +345,11 @@ Qed.
 (* in particular the failed-test sentinel is reported by one run exactly when by the other *)
 Corollary allow_equals_stripped_test o p i st k e2 :
   allow_opts o -> sgood st -> Forall op_dom p ->
+  copies_fit (dia o) (sval st) (map den_op (strip (dia o) (sval st) p)) = true ->
   apply_from (set_allow o false) i st (strip (dia o) (sval st) p) = AErr k e2 ->
   exists k1 e1, apply_from o i st p = AErr k1 e1 /\ (e1 = ETestFailed <-> e2 = ETestFailed).
 Proof.
-  intros AO G D H. pose proof (allow_equals_stripped o p i st AO G D) as T. cbv zeta in T. rewrite H in T.
+  intros AO G D F H. pose proof (allow_equals_stripped o p i st AO G D) as T. cbv zeta in T. specialize (T F). rewrite H in T.
   destruct T as [k1 [e1 [cz [T1 [T2 [T3 _]]]]]]. exists k1, e1. split; auto.
   rewrite (cause_rel_test_iff cz e1 T2), (cause_rel_test_iff cz e2 T3). reflexivity.
 Qed.
